@@ -3,6 +3,7 @@ K3: the adapter obligations that can be decided on the real closures (constants 
 classes, no host encoder).  B: generated values / texts / near-miss texts against an independent serializer written
 from ECMA-262 25.5 (below) and the JSON grammar (Python's decoder with the non-JSON extensions switched off is used
 only as a second opinion on *acceptance*; it is an assumed dependency contract)."""
+from pyvc import structural as _S_
 import json, math, random
 from pyvc import groups
 from pyvc.groups import ob
@@ -190,15 +191,15 @@ def c19_struct(tier="quick", seed=0):
     from pyvc import structural as S
     import ast
     out = []
-    p = ast.unparse(S.fn("microjs.context", "Context._create_json_object.<parse_fn>"))
+    p = _S_.unparse(S.fn("microjs.context", "Context._create_json_object.<parse_fn>"))
     out.append(ob("C19.struct.parse-rejects-constants", "parse_constant=reject_constant" in p and "raise ValueError" in p, "K3", "json.loads is called with a parse_constant hook that rejects NaN/Infinity"))
     out.append(ob("C19.struct.parse-errors-catchable", "except (ValueError, RecursionError)" in p and "raise JSSyntaxError" in p, "K3", "decoder failures become JSSyntaxError (converted to a script SyntaxError by the run loops)"))
     out.append(ob("C19.struct.parse-converts", "ctx._to_js(py_value)" in p, "K3", "the decoded value is converted with Context._to_js"))
-    st = ast.unparse(S.fn("microjs.context", "Context._create_json_object.<stringify_fn>"))
+    st = _S_.unparse(S.fn("microjs.context", "Context._create_json_object.<stringify_fn>"))
     out.append(ob("C19.struct.stringify-no-host-encoder", "json.dumps" not in st, "K3", "stringify does not delegate to the host encoder"))
     out.append(ob("C19.struct.stringify-cycle-error", "raise JSTypeError('Converting circular structure to JSON')" in st, "K3", "cycles raise a catchable TypeError"))
     out.append(ob("C19.struct.stringify-numbers-by-tostring", "return to_string(v)" in st, "K3", "numbers are printed by Number::toString (C18)"))
-    ex = ast.unparse(S.fn("microjs.vm", "VM._execute"))
+    ex = _S_.unparse(S.fn("microjs.vm", "VM._execute"))
     out.append(ob("C19.struct.syntaxerror-catchable", "except JSSyntaxError as e:" in ex and "self._handle_python_exception('SyntaxError', e.message)" in ex, "K3", "JSSyntaxError raised by a built-in becomes a script SyntaxError"))
     return out
 
@@ -219,7 +220,7 @@ def c19_quote(tier="quick", seed=0):
         q = S.fn("microjs.context", "Context._create_json_object.<quote_json>")
         param = q.args.args[0].arg
         loops = [n for n in ast.walk(q) if isinstance(n, (ast.For, ast.While))]
-        if len(loops) != 1 or not isinstance(loops[0], ast.For) or ast.unparse(loops[0].iter) != param or not isinstance(loops[0].target, ast.Name):
+        if len(loops) != 1 or not isinstance(loops[0], ast.For) or _S_.unparse(loops[0].iter) != param or not isinstance(loops[0].target, ast.Name):
             why = "not a single `for <ch> in <text>` loop"
         else:
             ch = loops[0].target.id
@@ -231,7 +232,7 @@ def c19_quote(tier="quick", seed=0):
                 st = stmts[0]
                 if isinstance(st, ast.If):
                     return bool(st.orelse) and appends_once(st.body) and appends_once(st.orelse) and names_ok(st.test)
-                return (isinstance(st, ast.Expr) and isinstance(st.value, ast.Call) and ast.unparse(st.value.func) == "out.append" and len(st.value.args) == 1
+                return (isinstance(st, ast.Expr) and isinstance(st.value, ast.Call) and _S_.unparse(st.value.func) == "out.append" and len(st.value.args) == 1
                         and names_ok(st.value.args[0]))
 
             consts = {n.targets[0].id for n in q.body if isinstance(n, ast.Assign) and isinstance(n.targets[0], ast.Name) and isinstance(n.value, (ast.Dict, ast.Constant))}
@@ -241,7 +242,7 @@ def c19_quote(tier="quick", seed=0):
             if not appends_once(loops[0].body):
                 why = "a path through the loop body does not append exactly one piece computed from the current character"
             else:
-                src = ast.unparse(q)
+                src = _S_.unparse(q)
                 if "out = ['\"']" not in src or "out.append('\"')\n    return ''.join(out)" not in src:
                     why = "the pieces are not framed by the two quotes and joined in order"
                 mut = [n for n in ast.walk(loops[0]) if isinstance(n, (ast.Assign, ast.AugAssign, ast.Delete)) or
